@@ -62,6 +62,11 @@ MUTATIONS = {
         ["C10"],
         [("flox/aggregations.py", "    preprocess=reverse,\n    finalize=reverse,\n", "    preprocess=reverse,\n")],
     ),
+    "cohort_tree_reverse_inner": (
+        ["C03", "C06"],
+        [("flox/dask_array_ops.py", "        dummy = dict(i for i in enumerate(p) if i[0] in split_every)\n",
+          "        dummy = dict((i, tuple(reversed(j)) if block_index is None else j) for i, j in enumerate(p) if i in split_every)\n")],
+    ),
     "nanmin_combine_min": (
         ["C04"],
         [("flox/aggregations.py", '    chunk="nanmin",\n    combine="nanmin",', '    chunk="nanmin",\n    combine="min",')],
